@@ -128,8 +128,14 @@ func annotatedCasesFor(gen string, u *schema.Universe, r *schema.Resource) []exc
 				call.Entities = []*schema.V{full, schema.Base(ann)}
 				reply.CreatedList = []*CreatedV{{Id: key, Status: 201}, {Id: schema.VI(ownKeyType(r), 8), Status: 201}}
 			case "batch_update":
-				call.Keyed = []KV{{K: key, V: full}}
-				reply.Batch = []*BatchEntry{{K: key, Has: map[string]bool{"results": true}, Status: 204}}
+				// several entities: what is stripped from one must not disturb the next
+				// (flat: required fields plus the last field the marshaler writes, which the richer specs exclude)
+				flat := schema.Base(ann).With("zStamp", schema.VI(ann.Field("zStamp").Type, 5))
+				for i, v := range []*schema.V{full, flat, schema.Base(ann), flat, full} {
+					k := schema.VI(ownKeyType(r), int64(7+i))
+					call.Keyed = append(call.Keyed, KV{K: k, V: v})
+					reply.Batch = append(reply.Batch, &BatchEntry{K: k, Has: map[string]bool{"results": true}, Status: 204})
+				}
 			}
 			if m.ReturnEntity {
 				if reply.Created != nil {
@@ -157,6 +163,7 @@ func annotatedCasesFor(gen string, u *schema.Universe, r *schema.Resource) []exc
 				return "wire-body", fmt.Sprintf("body %q: %v", body, err)
 			}
 			var sent []*schema.V
+			sentByKey := map[string]*schema.V{}
 			switch method {
 			case "create", "update":
 				v, err := looseDecode(ann, doc)
@@ -180,8 +187,19 @@ func annotatedCasesFor(gen string, u *schema.Universe, r *schema.Resource) []exc
 					if err != nil {
 						return "wire-body", err.Error()
 					}
-					sent = append(sent, v)
+					sentByKey[k] = v
 				}
+				// every entity given to the client, each minus its excluded values, and nothing else
+				if len(sentByKey) != len(call.Keyed) {
+					return "wire-body-not-exact", fmt.Sprintf("body %q carries %d entities, %d were given to the client", body, len(sentByKey), len(call.Keyed))
+				}
+				for _, kv := range call.Keyed {
+					got := sentByKey[fmt.Sprint(kv.K.I)]
+					if want := pruneW(kv.V, spec, nil); got == nil || !schema.Equal(got, want) {
+						return "wire-body-not-exact", fmt.Sprintf("body %q: the entity under key %d is %s, want exactly %s", body, kv.K.I, got, want)
+					}
+				}
+				sent = []*schema.V{sentByKey["7"]}
 			}
 			wantFirst := pruneW(full, spec, nil)
 			if len(sent) == 0 || !schema.Equal(sent[0], wantFirst) {
